@@ -3,7 +3,7 @@
 use super::*;
 use std::os::unix::io::FromRawFd;
 
-#[path = "/verif/kani/libc_model.rs"]
+#[path = "libc_model.rs"]
 mod lm;
 
 const RFD: i32 = 40;
